@@ -123,7 +123,8 @@ class Sim:
         self.draws["tm"] = DrawSource(self.decider, "tm", bias.get("tm"))
         self._patch(mm, "random", self.draws["mm"])
         self._patch(tm, "random", self.draws["tm"])
-        self._patch(proto, "time", TimeShim(self.loop, self.wall_offset))
+        self.timeshim = TimeShim(self.loop, self.wall_offset)  # .offset += d is a step of the wall clock (NTP, operator)
+        self._patch(proto, "time", self.timeshim)
         # logging: capture WARNING and above as (level, template); never format
         self._handler = ListHandler(self)
         root = logging.getLogger()
